@@ -3,6 +3,7 @@ package poolsim
 import (
 	"context"
 	"fmt"
+	"io"
 	"math/big"
 	"runtime/debug"
 	"sort"
@@ -1099,7 +1100,20 @@ func (w *world) doDone(ci, outcome, rep int, replyKeys []int) {
 	w.calls = append(w.calls[:ci], w.calls[ci+1:]...)
 	var err error
 	outName := "ok"
-	switch ((outcome % 6) + 6) % 6 {
+	switch o := ((outcome % 25) + 25) % 25; {
+	case o >= 6 && o <= 22: // every status code, with a non-standard text
+		if c := codes.Code(o - 6); c != codes.OK {
+			err, outName = status.Error(c, "status "+c.String()), "status-"+c.String()
+			if c == codes.DeadlineExceeded {
+				outName = "deadline-other-text"
+			}
+		}
+	case o == 23:
+		err, outName = fmt.Errorf("a plain error"), "plain-error"
+	case o == 24:
+		err, outName = io.EOF, "io-EOF"
+	}
+	switch ((outcome % 25) + 25) % 25 {
 	case 1:
 		err, outName = status.Error(codes.Unavailable, "unavailable"), "unavailable"
 	case 2:
